@@ -72,6 +72,15 @@ theorem firstPath_head : ∀ k : Rose, ∃ rest, firstPath k = k.id :: rest
   | .node a [] => ⟨[], rfl⟩
   | .node a (k :: _) => ⟨firstPath k, rfl⟩
 
+-- the branches reported in the whole subtree, in the order the traversal leaves the nodes (mirrors `C06.tipRemoved`)
+mutual
+def tipBranches (elen : Int → Int) (thre : Int) : Rose → List (List Int)
+  | .node i ks => tipBranchesRev elen thre ks ++ (if ks.length ≥ 2 then ks.filterMap (brOf elen thre i) else [])
+def tipBranchesRev (elen : Int → Int) (thre : Int) : List Rose → List (List Int)
+  | [] => []
+  | r :: rs => tipBranchesRev elen thre rs ++ tipBranches elen thre r
+end
+
 section leave
 variable {S : Type} [Inhabited S] (cbsL : List (S → List Int → Option S)) (eff : S → List Int → S) (Pst : S → Prop)
   (N : Nat) (pids : List Int) (elen : Int → Int) (thre : Int)
@@ -185,5 +194,159 @@ theorem tipLeave_node (hcb : CbOk cbsL eff Pst N) (i : Int) (G : Nat) (ks : List
       decide_false, Bool.false_eq_true, if_false] at e ⊢
     rw [e]
     simp [Py.finish, hc]
+/-- the closure the generated `__call__` hands to the traversal -/
+def leaveFn (G : Nat) : S → Int → List (Option (Int × Int)) → Option (S × Option (Int × Int)) :=
+  fun s n ch => tip_leave cbsL (fun _ c => elen c) G (rangeI N) pids thre n ch s
+
+mutual
+theorem spec_tipLeave (hcb : CbOk cbsL eff Pst N) (G : Nat) : ∀ (r : Rose) (pv : Option Unit) (s : S),
+    Agrees (tableKids (rangeI N) pids) r → (∀ j ∈ r.ids, 0 ≤ j ∧ j < (N : Int)) → r.size ≤ G → Pst s →
+    spec (wrapE Py.noEnter) (wrapL (leaveFn cbsL N pids elen thre G)) r pv (some s)
+      = (some ((tipBranches elen thre r).foldl eff s), val elen r) ∧ Pst ((tipBranches elen thre r).foldl eff s)
+  | .node i ks, pv, s, hA, hin, hs, hP => by
+    have hA' := hA
+    simp only [Agrees] at hA'
+    have hs' : sizeL ks ≤ G := by simp only [Rose.size] at hs; omega
+    obtain ⟨e1, p1⟩ := specRev_tipLeave hcb G ks () s hA'.2 (fun j hj => hin j (by simp [Rose.ids, hj])) hs' hP
+    obtain ⟨e2, p2⟩ := tipLeave_node cbsL eff Pst N pids elen thre hcb i G ks _ hA hin hs p1
+    refine ⟨?_, by simpa [tipBranches] using p2⟩
+    simp only [spec, wrapE, Py.noEnter, e1, wrapL, leaveFn, e2, tipBranches, List.foldl_append]
+theorem specRev_tipLeave (hcb : CbOk cbsL eff Pst N) (G : Nat) : ∀ (ks : List Rose) (cur : Unit) (s : S),
+    AgreesL (tableKids (rangeI N) pids) ks → (∀ j ∈ idsL ks, 0 ≤ j ∧ j < (N : Int)) → sizeL ks ≤ G → Pst s →
+    specRev (wrapE Py.noEnter) (wrapL (leaveFn cbsL N pids elen thre G)) ks cur (some s)
+      = (some ((tipBranchesRev elen thre ks).foldl eff s), ks.map (val elen)) ∧ Pst ((tipBranchesRev elen thre ks).foldl eff s)
+  | [], _, s, _, _, _, hP => by simp [specRev, tipBranchesRev, hP]
+  | r :: rs, cur, s, hA, hin, hs, hP => by
+    simp only [AgreesL] at hA
+    simp only [sizeL] at hs
+    obtain ⟨e1, p1⟩ := specRev_tipLeave hcb G rs cur s hA.2 (fun j hj => hin j (by simp [idsL, hj])) (by omega) hP
+    obtain ⟨e2, p2⟩ := spec_tipLeave hcb G r (some cur) _ hA.1 (fun j hj => hin j (by simp [idsL, hj])) (by omega) p1
+    refine ⟨?_, by simpa [tipBranchesRev] using p2⟩
+    simp only [specRev, e1, e2, tipBranchesRev, List.foldl_append, List.map_cons]
+end
 end leave
+/-! ## the callback list of `__call__`: the user's callbacks, then the recording `lambda` -/
+section top
+variable {σ : Type} [Inhabited σ]
+
+/-- total user callbacks as callables that never raise -/
+def tot (ucbs : List (σ → List Int → σ)) : List (σ → List Int → Option σ) := ucbs.map fun cb s br => some (cb s br)
+/-- `for cb in callbacks: cb(br)` on the user's callbacks -/
+def callUser (ucbs : List (σ → List Int → σ)) (c : σ) (br : List Int) : σ := ucbs.foldl (fun c cb => cb c br) c
+/-- effect of one reported branch on (user state, (removals, id column)) -/
+def effTop (ucbs : List (σ → List Int → σ)) : σ × (List Int × List Int) → List Int → σ × (List Int × List Int) :=
+  fun s br => (callUser ucbs s.1 br, (s.2.1 ++ [br.getD 1 0], s.2.2))
+def PstTop (N : Nat) (s : σ × (List Int × List Int)) : Prop := s.2.2 = rangeI N ∧ ∀ i ∈ s.2.1, 0 ≤ i ∧ i.toNat < N
+
+theorem callAll_append {S A : Type} : ∀ (l1 l2 : List (S → A → Option S)) (s : S) (a : A),
+    callAll (l1 ++ l2) s a = (callAll l1 s a).bind fun s' => callAll l2 s' a
+  | [], l2, s, a => by simp [callAll]
+  | cb :: l1, l2, s, a => by
+    simp only [List.cons_append, callAll]
+    cases cb s a with
+    | none => simp
+    | some s' => simpa using callAll_append l1 l2 s' a
+
+theorem callAll_lift {C : Type} : ∀ (ucbs : List (σ → List Int → σ)) (s : σ × C) (br : List Int),
+    callAll (liftCbs (tot ucbs)) s br = some (callUser ucbs s.1 br, s.2)
+  | [], s, br => by simp [tot, liftCbs, callAll, callUser]
+  | cb :: ucbs, s, br => by
+    have := callAll_lift ucbs (cb s.1 br, s.2) br
+    simp only [tot, liftCbs, List.map_cons, callAll, Option.map_some, Option.bind_some, callUser, List.foldl_cons] at this ⊢
+    exact this
+
+theorem tip_record_eq (rem : List Int) (N : Nat) (a x : Int) (rest : List Int) (h0 : 0 ≤ x) (h1 : x < (N : Int)) :
+    tip_record (rem, rangeI N) (a :: x :: rest) = some ((rem ++ [x], rangeI N), ()) := by
+  have hb : Py.idx (a :: x :: rest) 1 = some x := by simpa using idx_nat (a :: x :: rest) 1 (by simp)
+  simp [tip_record, tip_record.body, Py.bind, hb, RefineNode.idx_rangeI N x h0 h1, Py.finish]
+
+theorem cbOk_top (ucbs : List (σ → List Int → σ)) (N : Nat) :
+    CbOk (liftCbs (tot ucbs) ++ [closureCb tip_record]) (effTop ucbs) (PstTop N) N := by
+  intro s a x rest hP h0 h1
+  obtain ⟨c, rem, ids⟩ := s
+  obtain ⟨hi, hr⟩ := hP
+  change ids = rangeI N at hi
+  change ∀ i ∈ rem, 0 ≤ i ∧ i.toNat < N at hr
+  subst hi
+  refine ⟨?_, rfl, ?_⟩
+  · rw [callAll_append, callAll_lift]
+    simp [callAll, closureCb, tip_record_eq rem N a x rest h0 h1, effTop]
+  · intro i hi
+    simp only [effTop, List.mem_append, List.mem_singleton] at hi
+    rcases hi with hi | hi
+    · exact hr i hi
+    · simp only [List.getD_eq_getElem?_getD, List.getElem?_cons_succ, List.getElem?_cons_zero, Option.getD_some] at hi
+      subst hi; omega
+
+theorem foldl_effTop (ucbs : List (σ → List Int → σ)) : ∀ (brs : List (List Int)) (c : σ) (rem ids : List Int),
+    brs.foldl (effTop ucbs) (c, (rem, ids)) = (brs.foldl (callUser ucbs) c, (rem ++ brs.map (fun b => b.getD 1 0), ids))
+  | [], c, rem, ids => by simp
+  | b :: brs, c, rem, ids => by
+    rw [List.foldl_cons]
+    show brs.foldl (effTop ucbs) (callUser ucbs c b, (rem ++ [b.getD 1 0], ids)) = _
+    rw [foldl_effTop ucbs brs]
+    simp
+end top
+
+/-! ## the removed nodes are the second nodes of the reported branches -/
+theorem brOf_second (elen : Int → Int) (thre : Int) (i : Int) (ks : List Rose) :
+    (ks.filterMap (brOf elen thre i)).map (fun b => b.getD 1 0)
+      = ks.filterMap (fun k => match chainLen? elen k with
+          | some L => if L + elen k.id > thre then none else some k.id
+          | none => none) := by
+  rw [List.map_filterMap]
+  congr 1
+  funext k
+  obtain ⟨rest, hr⟩ := firstPath_head k
+  simp only [brOf]
+  cases chainLen? elen k with
+  | none => simp
+  | some L => by_cases hg : L + elen k.id > thre <;> simp [hg, hr]
+
+mutual
+theorem tipRemoved_eq (elen : Int → Int) (thre : Int) : ∀ r : Rose,
+    tipRemoved elen thre r = (tipBranches elen thre r).map (fun b => b.getD 1 0)
+  | .node i ks => by
+    simp only [tipRemoved, tipBranches, List.map_append]
+    rw [tipRemovedRev_eq elen thre ks]
+    by_cases h2 : ks.length ≥ 2
+    · simp only [h2, if_true, brOf_second]
+      rfl
+    · simp [h2]
+theorem tipRemovedRev_eq (elen : Int → Int) (thre : Int) : ∀ ks : List Rose,
+    tipRemovedRev elen thre ks = (tipBranchesRev elen thre ks).map (fun b => b.getD 1 0)
+  | [] => by simp [tipRemovedRev, tipBranchesRev]
+  | r :: rs => by
+    simp only [tipRemovedRev, tipBranchesRev, List.map_append]
+    rw [tipRemovedRev_eq elen thre rs, tipRemoved_eq elen thre r]
+end
+
+/-- **`CutShortTipBranch.__call__` as translated IS the model `Sub.cutShortTip`** (with `_leave` handed to the generated traversal, the
+recording `lambda` on the callback list and the generated `to_subtree`): on every tree table, for every threshold, every edge-length
+function and every list of total stateful user callbacks (what `__init__` put on `self.callbacks`), nothing raises, the result is the model's
+table — `C06.cutShortTip_removed` characterises the removed nodes as `tipRemoved` — and the user callbacks have been called, every one in
+list order, exactly once per reported branch `[furcation, child, …, tip]`, in the order the traversal leaves the furcations
+(`tipBranches`; `tipRemoved_eq`: the removed seeds are exactly the second nodes of these branches).  Fuel `2·|tree| + 1` suffices. -/
+theorem cutShortTip_refines {σ : Type} [Inhabited σ] (pids : List Int) (r : Rose) (h : IsTree r pids) (elen : Int → Int) (thre : Int)
+    (ucbs : List (σ → List Int → σ)) (s0 : σ) (F : Nat) :
+    cut_short_tip (tot ucbs) (fun _ c => elen c) (2 * r.size + F + 1) (rangeI pids.length) pids thre s0 =
+      (cutShortTip pids elen thre).map (fun t =>
+        ((tipBranches elen thre r).foldl (callUser ucbs) s0, ((Py.range (t.mapping.length : Int), t.newPid), t.mapping))) := by
+  have hin : ∀ j ∈ r.ids, 0 ≤ j ∧ j < (pids.length : Int) := fun j hj => by
+    have := (isTree_mem h j).1 hj; omega
+  have hP0 : PstTop pids.length (s0, (([] : List Int), rangeI pids.length)) := ⟨rfl, by simp⟩
+  obtain ⟨e1, p1⟩ := spec_tipLeave (liftCbs (tot ucbs) ++ [closureCb tip_record]) (effTop ucbs) (PstTop pids.length) pids.length pids elen thre
+    (cbOk_top ucbs pids.length) (2 * r.size + F + 1) r none (s0, ([], rangeI pids.length)) h.1.1 hin (by omega) hP0
+  have hcall := RefineTrav.traverse_refines (wrapE Py.noEnter)
+    (wrapL (leaveFn (liftCbs (tot ucbs) ++ [closureCb tip_record]) pids.length pids elen thre (2 * r.size + F + 1)))
+    (rangeI pids.length) pids r h.1 (some (s0, (([] : List Int), rangeI pids.length))) F
+  rw [e1, h.2.2.1, foldl_effTop] at hcall
+  rw [foldl_effTop] at p1
+  simp only [List.nil_append, ← tipRemoved_eq] at hcall p1
+  have hsub := RefineCut.toSubtree_refines pids r h (tipRemoved elen thre r) p1.2 F
+  rw [cutShortTip_removed pids r h]
+  unfold leaveFn at hcall
+  simp only [cut_short_tip, cut_short_tip.body, Py.seq, Py.bind, Py.skip, hcall, unwrapCb, hsub]
+  cases toSubtree pids (tipRemoved elen thre r) <;> simp [Py.finish]
+
 end RefineShortTip
